@@ -89,11 +89,12 @@ PROPS = {
         assumptions=['the FAT describes a cycle-free chain (cyclic/dangling chains: hostile input, C06)'],
     ),
     'C18': dict(
-        level_text='Bounded model checking of the real MS-OVBA decompressor against the token layout of MS-OVBA 2.4.1: literal-only chunks of 1..=9 (16 thorough) symbolic bytes across flag-byte groups, two-chunk containers including a first chunk that ends on a full flag group, and copy tokens with concrete (offset,length) after symbolic literals (overlapping copies included).',
-        hosts={'src/cfb.rs': ['c18_cfb.rs']},
-        functions=['cfb::decompress_stream'],
+        level_text='Bounded model checking of the real MS-OVBA decompressor against the token layout of MS-OVBA 2.4.1: literal-only chunks of 1..=9 (16 thorough) symbolic bytes across flag-byte groups, two-chunk containers including a first chunk that ends on a full flag group, and copy tokens with concrete (offset,length) after symbolic literals (overlapping copies included); and of the dir-stream module walk (read_modules) on 1-2 modules with symbolic names, stream names, 32-bit text offsets and module kinds.',
+        hosts={'src/cfb.rs': ['c18_cfb.rs'], 'src/vba.rs': ['c18_vba.rs']},
+        functions=['cfb::decompress_stream', 'vba::read_modules', 'vba::check_variable_record', 'vba::check_record', 'vba::read_variable_record'],
+        stubs=['encoding_rs::Encoding::decode -> single-byte ASCII model in the dir-stream harnesses'],
         bounds={'chunks': '1 or 2 compressed chunks', 'tokens': '<= 16 literal tokens per chunk, <= 1 copy token with (offset,len) in {(1,3),(2,5),(3,3),(1,9)}', 'literal bytes': 'symbolic'},
-        outside=['symbolic copy tokens (62 GB OOM, DESIGN 3)', 'raw (uncompressed) 4096-byte chunks', 'dir-stream walk in vba.rs (encoding_rs / byteorder readers): not admitted yet', 'module offsets, code pages'],
+        outside=['symbolic copy tokens (62 GB OOM, DESIGN 3)', 'raw (uncompressed) 4096-byte chunks', 'read_dir_information and Reference::from_stream (project information / references)', 'code-page decoding of module text'],
         assumptions=['chunks shorter than 4096 bytes before the last one (the decoder does not check the MS-OVBA 4096 rule)'],
     ),
     'C12': dict(
@@ -148,8 +149,8 @@ PROPS = {
         hosts={'src/de.rs': ['c09_de.rs']},
         functions=['de::RangeDeserializerBuilder::from_range', 'de::RangeDeserializer::new', 'de::RangeDeserializer::next', 'de::RangeDeserializer::size_hint', 'de::RowDeserializer (SeqAccess)', 'de::DataDeserializer (deserialize_i64/u8/f64/bool/option/string/any)'],
         stubs=['alloc::fmt::format -> empty String (error texts)'],
-        bounds={'ranges': 'heights 1..=3, widths 1..=3, origins (3,2) (4,1) (0,0)', 'records': 'tuples of i64 (positional), header selection of 2 columns', 'payloads': 'symbolic i64/f64/bool'},
-        outside=['map/struct access by header name (serde derive visitors)', 'string->number parsing', 'deserialize_as_*_or_none helpers', 'ranges larger than the shapes'],
+        bounds={'ranges': 'heights 1..=3, widths 1..=3, origins (3,2) (4,1) (0,0)', 'records': 'tuples of i64 (positional), a map-collecting record over 3 headers (all / reversed selection), header selection of 2 columns', 'payloads': 'symbolic i64/f64/bool'},
+        outside=['struct access through serde-derive visitors (map access is covered with a hand-written visitor)', 'string->number parsing', 'deserialize_as_*_or_none helpers', 'ranges larger than the shapes'],
         assumptions=[],
     ),
     'C11': dict(
